@@ -11,6 +11,9 @@ Streams
   read                     documented reading of a record parsed back from the GVF        (internal)
   denotes                  real reading of an emitted record  vs  Lean SPEC fusedSeq      (observable)
   fused                    independent Python fused_seq        vs  Lean SPEC fusedSeq      (internal)
+  callvariant              END TO END: tool row -> real parser command -> GVF -> real callVariant;
+                           FASTA  vs  Lean `Spec.callBackbone` on the backbone `fusedSeq` that the
+                           parsed record denotes (cut by `FusionSpec.fusedParts`)          (observable)
 Direct predicates on the real output (no model involved): every emitted / written record denotes
 fused_seq; multiset of (donor tx, acceptor tx) pairs per row; tally buckets; gene-rank order.
 """
@@ -19,13 +22,16 @@ import argparse
 import copy
 import importlib
 import json
+import multiprocessing as mp
 import os
+import random
 import shutil
 import sys
 import tempfile
+import traceback
 from pathlib import Path
 
-from . import c11, common
+from . import c11, common, gen_ref
 from .gen_ref import quiet
 
 COMP = c11.COMP
@@ -907,6 +913,351 @@ def process_anno(ctx, case, a, rng, S, cap, ncases):
         shutil.rmtree(tmp, ignore_errors=True)
 
 
+
+# ------------------------------------------------------------------ callVariant clause
+CV_EXTRA = ('callVariant reports a fusion peptide that is not a digestion product of the fusion '
+            'transcript (fusedSeq) denoted by the record the fusion parser wrote')
+CV_MISSING = ('digestion products of the fusion transcript (fusedSeq) denoted by the record the '
+              'fusion parser wrote are missing from the callVariant FASTA')
+CV_THRESHOLDS = {'star': {'min_est_j': 5.0},
+                 'arriba': {'min_split_read1': 1, 'min_split_read2': 1, 'min_confidence': 'medium'},
+                 'fc': {'max_common_mapping': 0, 'min_spanning_unique': 5}}
+
+
+def light_anno(gtf_text, fasta_text):
+    """the generator-side view (c11.Anno: genes, transcripts, exons, chromosomes) of reference
+    files, parsed by this harness from the text (gene / exon lines only)"""
+    a = c11.Anno()
+    a.style = 'GENCODE'
+    name, buf = None, []
+    for ln in fasta_text.split('\n'):
+        if ln.startswith('>'):
+            if name is not None:
+                a.chroms[name] = ''.join(buf)
+            name, buf = ln[1:].split()[0], []
+        elif ln.strip():
+            buf.append(ln.strip())
+    if name is not None:
+        a.chroms[name] = ''.join(buf)
+    genes, txs = {}, {}
+    for ln in gtf_text.split('\n'):
+        if not ln or ln.startswith('#'):
+            continue
+        f = ln.split('\t')
+        at = {}
+        for x in f[8].strip().strip(';').split(';'):
+            x = x.strip()
+            if x:
+                k, _, v = x.partition(' ')
+                at.setdefault(k, v.strip().strip('"'))
+        if f[2] == 'gene':
+            g = c11.Gene()
+            g.id, g.chrom, g.strand = at['gene_id'], f[0], f[6]
+            g.start, g.end = int(f[3]) - 1, int(f[4])
+            g.name = at.get('gene_name', '')
+            genes[g.id] = g
+            a.genes.append(g)
+        elif f[2] == 'exon':
+            key = at['transcript_id']
+            if key not in txs:
+                t = c11.Tx()
+                t.id, t.gene, t.chrom, t.strand = key, at['gene_id'], f[0], f[6]
+                txs[key] = t
+                genes[at['gene_id']].txs.append(t)
+            txs[key].exons.append((int(f[3]) - 1, int(f[4])))
+    for t in txs.values():
+        t.exons.sort()
+    a._gtf = gtf_text
+    return a
+
+
+def cv_draw_row(a, rng, dg, ag, tool, dd):
+    """a clean row donor gene -> acceptor gene from the position classes of the converter streams;
+    rows that the open REF finding would lose are not drawn; for a coding donor most breakpoints
+    are steered into the CDS (before the start codon callVariant reports nothing by convention,
+    behind the stop codon the fusion changes no protein)"""
+    dt = dg.txs[0]
+    for attempt in range(40):
+        r = base_row(a, rng, dg, ag)
+        if dd['coding'] and dd['orf'] and attempt == 0 and rng.random() < 0.15:
+            # the boundary of the convention: breakpoint on the last base of the start codon
+            # (first fusion callVariant evaluates), one before it (last one it does not), one behind
+            k = rng.choice([1, 2, 2, 3])
+            p = dt.tx2g(dd['orf'][0] + k)
+            if p is not None:
+                r.lb, r.cl = p + 1, f'start_codon_{k}'
+        if not valid_row(r) or ref_oob(tool, r, a):
+            continue
+        if not tx_with(dg, r.lb - 1) or not tx_with(ag, r.rb - 1):
+            continue
+        if r.cl.startswith('start_codon'):
+            return r
+        if dd['coding'] and dd['orf'] and attempt < 30 and rng.random() < 0.9:
+            lb0 = r.lb - 1
+            dpos = _lower_side(dt.exons, lb0) if dg.strand == '+' else \
+                _upper_side(dt.exons, lb0, len(a.chroms[dg.chrom]))
+            bp_est = sum(1 for q in dpos if _exonic(dt.exons, q))
+            if not (dd['orf'][0] + 3 <= bp_est <= dd['orf'][1]):
+                continue
+        return r
+    return None
+
+
+def cv_pipeline(case, a, tool, rows, kw, out):
+    """real parser command on the tool file -> GVF -> real callVariant; fills `out` with the real
+    results and the protocol lines of the Lean side.  Returns False when nothing is to compare."""
+    from . import cv_backbone, cv_explore, pipe
+    inp = case.dir / f'fusion_{tool}.txt'
+    with open(inp, 'w') as fh:
+        fh.write(HEADER[tool] + '\n' + ''.join(x + '\n' for x in rows['lines']))
+    gvf = case.dir / f'fusion_{tool}.gvf'
+    args = base_args(str(case.dir), tool, inp, gvf)
+    for k, v in CV_THRESHOLDS[tool].items():
+        setattr(args, k, v)
+    real, tally, recs, errtext = run_cli(tool, args)
+    out['parser'] = real[:300]
+    if real.startswith('crash:'):
+        out['parser_crash'] = errtext
+        return False
+    if len(recs) != 1:
+        out['parser_records'] = len(recs)
+        return False
+    v = recs[0]
+    tx = {t.id: (g, t) for g in a.genes for t in g.txs}
+    donor, acc = v.attrs['TRANSCRIPT_ID'], v.attrs['ACCEPTER_TRANSCRIPT_ID']
+    if donor not in tx or acc not in tx:
+        out['unknown_tx'] = [donor, acc]
+        return False
+    dg, dt = tx[donor]
+    ag, at = tx[acc]
+    lb0, rb0 = rows['lb'] - 1, rows['rb'] - 1
+    out['desc'].update(donor=donor, acceptor=acc, record=fmt_rec(v), left_breakpoint_0based=lb0,
+                       right_breakpoint_0based=rb0, strands=dg.strand + ag.strand)
+    intronic = (not _exonic(dt.exons, lb0), not _exonic(at.exons, rb0))
+    out['stats']['strands_' + dg.strand + ag.strand] = 1
+    out['stats']['left_' + ('intronic' if intronic[0] else 'exonic')] = 1
+    out['stats']['right_' + ('intronic' if intronic[1] else 'exonic')] = 1
+    out['stats']['tool_' + tool] = 1
+    # the sequence the parsed record denotes: Lean side (C15 model / specification)
+    out['parts_line'] = (f'C15\tparts\t{dg.strand}\t{ex_s(dt.exons)}\t{a.chroms[dg.chrom]}\t{lb0}'
+                         f'\t{ag.strand}\t{ex_s(at.exons)}\t{a.chroms[ag.chrom]}\t{rb0}')
+    out['read_line'] = (f'C15\tread\t{dg.strand}\t{dg.start}-{dg.end}\t{ex_s(dt.exons)}'
+                        f'\t{a.chroms[dg.chrom]}\t{ag.strand}\t{ag.start}-{ag.end}\t{ex_s(at.exons)}'
+                        f'\t{a.chroms[ag.chrom]}\t{int(v.location.start)}\t{v.get_accepter_position()}')
+    # real callVariant on the GVF the parser wrote
+    case.gvfs = [gvf]
+    canon = pipe.canonical_pool(case, **kw)
+    run = gen_ref.run_call_variant(case, tag='cv', **kw)
+    if run.status != 'ok':
+        out['crash'] = (run.status, run.error)
+        return False
+    genome, anno, _ = gen_ref.load_reference(case)
+    out['real_reading'] = real_reading(v, anno, genome)[0]
+    dd, _dseq, _dgs = cv_backbone.tx_dict(anno, genome, donor, [])
+    am = anno.transcripts[acc]
+    exc = cv_explore.resolve_exc(kw)
+    out['donor'] = {k: dd[k] for k in ('coding', 'orf', 'start_nf', 'sec')}
+    out['donor_seq'] = dd['seq']
+    out['acc_end_nf'] = bool(am.is_mrna_end_nf())
+    out['ref_line'] = cv_backbone.ref_line(dd, kw, exc, kw['selenocysteine_termination'],
+                                           kw['w2f_reassignment'])
+    out['cleave'] = cv_explore.cleave_fields(kw, exc) + ['0', '1' if kw['w2f_reassignment'] else '0']
+    out['canon'] = ','.join(sorted(canon))
+    out['real'] = sorted(run.fasta.keys())
+    out['headers'] = {s_: h for s_, h in run.fasta.items()}
+    out['stats']['coding_donor' if dd['coding'] else 'noncoding_donor'] = 1
+    try:
+        pool = cv_backbone.load_pool(case, anno, genome)
+        out['desc']['loaded_breakpoint_tx'] = int(pool[donor].fusion[0].location.start)
+    except Exception as e:      # noqa  diagnostic only
+        out['desc']['loaded_breakpoint_tx'] = f'{type(e).__name__}'
+    return True
+
+
+def cv_worker(job):
+    """one two-gene reference (gen_ref.make_reference), ONE tool row for a fusion between the two
+    genes, the real parser command, the real callVariant"""
+    seed, index = job
+    rng = random.Random(seed)
+    tool = TOOLS[index % 3]
+    out = {'stats': {}, 'seed': seed, 'tool': tool, 'desc': {'seed': seed, 'tool': tool}}
+    case = gen_ref.Case(gen_ref.work_dir('c15cv'))
+    try:
+        from . import cv_backbone, cv_explore
+        with quiet():
+            gen_ref.make_reference(case, seed, 2)
+            genome, anno, _ = gen_ref.load_reference(case)
+        gtf_text, fasta_text = open(case.gtf).read(), open(case.genome).read()
+        a = light_anno(gtf_text, fasta_text)
+        if len(a.genes) != 2 or any(len(g.txs) != 1 for g in a.genes):
+            out['stats']['unexpected_reference'] = 1
+            return out
+        dg, ag = (a.genes[0], a.genes[1]) if rng.random() < 0.5 else (a.genes[1], a.genes[0])
+        dd, _s, _g = cv_backbone.tx_dict(anno, genome, dg.txs[0].id, [])
+        r = cv_draw_row(a, rng, dg, ag, tool, dd)
+        if r is None:
+            out['stats']['no_row'] = 1
+            return out
+        kw = cv_explore.default_kw(rng, True, None)
+        out['desc'].update(kw=kw, row=tool_line(tool, r), class_left=r.cl, class_right=r.cr)
+        out['files'] = {'gtf': gtf_text, 'genome': dict(a.chroms),
+                        'proteome': open(case.proteome).read(), 'header': HEADER[tool]}
+        out['stats']['class_left_' + r.cl.rstrip('123')] = 1
+        out['stats']['class_right_' + r.cr.rstrip('123')] = 1
+        rows = {'lines': [tool_line(tool, r)], 'lb': r.lb, 'rb': r.rb}
+        out['rows'] = rows
+        if cv_pipeline(case, a, tool, rows, kw, out):
+            out['stats']['runs'] = 1
+        return out
+    except Exception:   # noqa
+        out['stats']['worker_error'] = 1
+        out['error'] = traceback.format_exc()[-1500:]
+        return out
+    finally:
+        case.cleanup()
+
+
+def cv_expected(ctx, done):
+    """Lean side for the completed cases: the four stretches of fusedSeq, the reading of the
+    parsed record, the donor's reference peptides, then Spec.callBackbone on the backbone"""
+    lines = []
+    for r in done:
+        lines += [r['parts_line'], r['read_line'], r['ref_line']]
+    outs = ctx.lean(lines)
+    if outs is None:
+        ctx.add_broken('correspondence', 'callvariant', 'native driver unavailable')
+        return False
+    lines2, idx = [], []
+    for i, r in enumerate(done):
+        parts, read, deny = outs[3 * i:3 * i + 3]
+        p = parts.split('|')
+        if len(p) != 4:
+            r['lean_error'] = parts[:200]
+            continue
+        de, di, ai, ae = p
+        r['backbone'] = de + di + ai + ae
+        r['read'] = read
+        bp = len(de)
+        lim = bp + len(di) + len(ai)
+        dd = r['donor']
+        orf = dd['orf']
+        r['bp'], r['lim'] = bp, lim
+        r['skip_fusion'] = bp < (orf[0] if orf else 0) + 3
+        r['S'] = set()
+        if r['skip_fusion']:
+            continue
+        btx = {'seq': r['backbone'], 'coding': dd['coding'], 'orf': orf, 'start_nf': dd['start_nf'],
+               'end_nf': r['acc_end_nf'], 'sec': [s for s in dd['sec'] if s + 3 < bp]}
+        from .cv_explore import tx_fields
+        lines2.append('\t'.join(['S', 'cvb'] + tx_fields(btx) + [str(lim), '1', ''] + r['cleave']
+                                + [deny, r['canon']]))
+        idx.append(i)
+    outs2 = ctx.lean(lines2) if lines2 else []
+    if outs2 is None:
+        ctx.add_broken('correspondence', 'callvariant', 'native driver unavailable (cvb)')
+        return False
+    for i, o in zip(idx, outs2):
+        done[i]['S'] = set(o.split(',')) if o else set()
+    return True
+
+
+def cv_replay_dict(r, **extra):
+    d = dict(r['desc'])
+    d.update(kind='callvariant', tool=r['tool'], rows=r['rows']['lines'],
+             left_breakpoint_1based=r['rows']['lb'], right_breakpoint_1based=r['rows']['rb'],
+             header=r['files']['header'], gtf=r['files']['gtf'], genome=r['files']['genome'],
+             proteome=r['files']['proteome'])
+    for k in ('bp', 'lim', 'backbone', 'donor', 'acc_end_nf', 'skip_fusion'):
+        if k in r:
+            d[{'bp': 'donor_breakpoint_tx', 'lim': 'acceptor_exonic_start'}.get(k, k)] = r[k]
+    d.update(extra)
+    return d
+
+
+def cv_judge(ctx, r):
+    """verdicts on one completed case (after cv_expected); returns the number of violations"""
+    nv = 0
+    if 'lean_error' in r:
+        ctx.add_broken('correspondence', 'callvariant', 'C15 parts op: ' + r['lean_error'])
+        return 0
+    exp = 'ok:' + r['backbone']
+    if r['read'] != exp:
+        # the reading of the record the command wrote (model of the documented semantics) is not
+        # the fusion transcript of the row's breakpoints
+        nv += 1
+        ctx.add_violation(DENOTES_MSG + ' (record written by the parser command, read by the C15 '
+                          'model, vs FusionSpec.fusedParts of the row)',
+                          cv_replay_dict(r, expected=r['backbone'], got=r['read']))
+    if r['real_reading'] != exp:
+        nv += 1
+        ctx.add_violation(DENOTES_MSG, cv_replay_dict(r, expected=r['backbone'],
+                                                      got=r['real_reading']))
+    real = set(r['real'])
+    extra, missing = real - r['S'], r['S'] - real
+    if extra:
+        nv += 1
+        ctx.add_violation(f'{CV_EXTRA}: {len(extra)} peptide(s), e.g. {sorted(extra)[:3]}',
+                          cv_replay_dict(r, sub='extra', extra=sorted(extra)[:20],
+                                         headers={s: r['headers'][s] for s in sorted(extra)[:5]},
+                                         n_expected=len(r['S']), n_reported=len(real)))
+    if missing:
+        nv += 1
+        ctx.add_violation(f'{CV_MISSING}: {len(missing)} peptide(s), e.g. {sorted(missing)[:3]}',
+                          cv_replay_dict(r, sub='missing', missing=sorted(missing)[:20],
+                                         n_expected=len(r['S']), n_reported=len(real)))
+    return nv
+
+
+def callvariant_stream(ctx, procs=14):
+    n = ctx.n(54, 900)
+    jobs = [(ctx.rng('callvariant', i).randrange(1 << 30), i) for i in range(n)]
+    with mp.get_context('fork').Pool(min(procs, max(1, n))) as pool:
+        res = pool.map(cv_worker, jobs)
+    shutil.rmtree(gen_ref.WORK, ignore_errors=True)
+    stats = {}
+    for r in res:
+        for k, v in r['stats'].items():
+            stats[k] = stats.get(k, 0) + v
+    ctx.coverage['callvariant_worker_stats'] = stats
+    errs = [r['error'] for r in res if 'error' in r]
+    if errs:
+        ctx.coverage['callvariant_worker_errors'] = errs[:3]
+        ctx.notes.append(f'{len(errs)} callvariant worker(s) hit a harness error (cases not counted)')
+        if len(errs) * 4 > n:
+            ctx.add_broken('correspondence', 'callvariant',
+                           f'{len(errs)} of {n} workers failed: {errs[0][-800:]}')
+    for r in res:
+        if 'parser_crash' in r:
+            ctx.evaluated('callvariant', str(r['seed']), True, None)
+            ctx.add_violation('converter raised on a valid fusion row (known genes, correct '
+                              'chromosome, breakpoints inside the genes)',
+                              cv_replay_dict(r, real=r['parser'], error=r['parser_crash']))
+        elif 'parser_records' in r:
+            ctx.evaluated('callvariant', str(r['seed']), True, None)
+            ctx.add_violation('records written by a fusion parser command are not exactly one per '
+                              'eligible (donor transcript, acceptor transcript) pair of every '
+                              'accepted row', cv_replay_dict(r, real=r['parser'],
+                                                             n_records=r['parser_records']))
+        elif 'crash' in r:
+            ctx.evaluated('callvariant', str(r['seed']), True, None)
+            ctx.add_violation(f'callVariant crashed ({r["crash"][0]}: {r["crash"][1]}) on the GVF '
+                              'written by a fusion parser command', cv_replay_dict(r, sub='crash'))
+    done = [r for r in res if 'parts_line' in r and 'real' in r]
+    if not cv_expected(ctx, done):
+        return
+    for r in done:
+        sample = {k: v for k, v in r['desc'].items()}
+        sample.update(n_expected=len(r.get('S', ())), n_reported=len(r['real']))
+        ctx.evaluated('callvariant', str(r['seed']), bool(r.get('S') or r['real']), sample)
+        if r.get('skip_fusion'):
+            ctx.count('callvariant', 'breakpoint_before_start_codon')
+        if r.get('S'):
+            ctx.count('callvariant', 'expected_peptides', len(r['S']))
+        cv_judge(ctx, r)
+    combos = [c for c in ('++', '+-', '-+', '--') if not stats.get('strands_' + c)]
+    if combos and n >= 40:
+        ctx.notes.append(f'callvariant: strand combinations not drawn this seed: {combos}')
+
 # ------------------------------------------------------------------ streams
 def describe(o):
     ac, tool, rows, extra = o[0], o[1], o[2], o[3]
@@ -983,7 +1334,19 @@ def run(ctx: common.Ctx):
         'defect, evidence at threshold-1/threshold/threshold+1 and every Arriba confidence against '
         'thresholds from small grids incl. the defaults, --skip-failed on and off.  Non-trivial: '
         'converter output = an error or >= 1 record; command = >= 1 skipped and >= 1 succeeded row; '
-        'denotes = intronic breakpoint on at least one side or donor/acceptor on different strands.')
+        'denotes = intronic breakpoint on at least one side or donor/acceptor on different strands.  '
+        'callvariant (end to end): a two-gene reference from moPepGen.fake (gen_ref.make_reference: '
+        'coding / non-coding, cds_start_NF, mRNA_end_NF, selenoproteins, 3-10 exons, both strands), ONE '
+        'clean row donor gene -> acceptor gene rendered for one tool (round robin over the three), '
+        'breakpoints from the same position classes (exonic / intronic, first / last base of exon, '
+        'intron, transcript, gene) plus the last base of the donor start codon and its two '
+        'neighbours; for coding donors 90% of the left breakpoints are re-drawn until they fall '
+        'into the CDS; rows the open REF finding would lose are not drawn.  The real parser command '
+        'writes the GVF, the real callVariant (trypsin, no exception, miscleavage / length / mass '
+        'limits, Sec termination and W2F varied) reads it; the FASTA must equal Lean '
+        'Spec.callBackbone on the backbone FusionSpec.fusedParts(row breakpoints) (extra peptide = '
+        'the clause of the property, missing peptide = completeness).  Non-trivial: expected or '
+        'reported set non-empty.')
     ctx.coverage['exhaustive'] = False
     conf_stream(ctx)
     S = {s: [] for s in STREAMS}
@@ -1002,6 +1365,7 @@ def run(ctx: common.Ctx):
         if i % 10 == 9:
             flush(ctx, S)
     flush(ctx, S)
+    callvariant_stream(ctx)
     g = ctx.coverage['streams'].get('gen', {})
     missing = [c for c in ('++', '+-', '-+', '--') if not g.get('record_strands_' + c)]
     if missing:
@@ -1015,6 +1379,14 @@ def run(ctx: common.Ctx):
         'the tool files carry plausible constants in the columns the converters do not read',
         'transcripts whose real get_transcript_sequence raises (degenerate CDS/ORF, property C11) '
         'are not read: records naming them are counted in gen.records_skipped_tx_sequence_rejected',
+        'callvariant stream: the graph algorithm of callVariant is not modelled — the stream compares '
+        'its FASTA with the definition Spec.callBackbone (proved: Props.C15.callvariant_clause) on the '
+        'backbone that Lean computes from the row (FusionSpec.fusedParts; proved to be fusedSeq and '
+        'to be cut at the exon/intron boundaries); transcript fields of the donor (ORF, cds_start_NF, '
+        'Sec positions, reference peptides through the S ref op) and mRNA_end_NF of the acceptor come '
+        'from the real annotation API as in harness/cv_backbone.py; convention of the command: a '
+        'fusion whose donor breakpoint lies before the first base behind the start codon yields '
+        'nothing; the canonical pool comes from the real load_references',
         'in 15% of the annotations the chromosomes are cut 0-2 bases after their last gene so that '
         'breakpoints on the last / second to last chromosome base occur (known finding '
         + KF_REF + ')',
@@ -1022,6 +1394,48 @@ def run(ctx: common.Ctx):
 
 
 # ------------------------------------------------------------------ replay
+def replay_callvariant(ctx, case):
+    """stored reference files + tool row -> real parser command -> real callVariant -> Lean"""
+    ctx.driver_ok = os.path.exists(common.DRIVER)
+    c = gen_ref.Case(gen_ref.work_dir('c15rp'))
+    try:
+        open(c.gtf, 'w').write(case['gtf'])
+        fasta = ''.join(f'>{k}\n{v}\n' for k, v in case['genome'].items())
+        open(c.genome, 'w').write(fasta)
+        open(c.proteome, 'w').write(case['proteome'])
+        a = light_anno(case['gtf'], fasta)
+        r = {'stats': {}, 'seed': case.get('seed'), 'tool': case['tool'],
+             'desc': {'seed': case.get('seed'), 'tool': case['tool'], 'kw': case['kw']},
+             'rows': {'lines': case['rows'], 'lb': case['left_breakpoint_1based'],
+                      'rb': case['right_breakpoint_1based']},
+             'files': {'gtf': case['gtf'], 'genome': case['genome'], 'proteome': case['proteome'],
+                       'header': case['header']}}
+        kw = dict(case['kw'])
+        if not cv_pipeline(c, a, case['tool'], r['rows'], kw, r):
+            print('parser / callVariant did not complete:',
+                  {k: r[k] for k in ('parser', 'parser_crash', 'parser_records', 'crash') if k in r})
+            return 1
+        if not cv_expected(ctx, [r]):
+            print('native driver unavailable')
+            return 2
+        print('record               :', r['desc']['record'])
+        print('donor breakpoint (tx):', r.get('bp'), ' acceptor exonic start:', r.get('lim'),
+              ' loaded by callVariant at:', r['desc'].get('loaded_breakpoint_tx'))
+        real = set(r['real'])
+        print('reported             :', sorted(real))
+        print('definition           :', sorted(r.get('S', ())))
+        print('extra                :', sorted(real - r.get('S', set())))
+        print('missing              :', sorted(r.get('S', set()) - real))
+        n0 = len(ctx.violations)
+        cv_judge(ctx, r)
+        for v in ctx.violations[n0:]:
+            print('VIOLATION:', v.what[:300])
+        return 1 if len(ctx.violations) > n0 else 0
+    finally:
+        c.cleanup()
+        shutil.rmtree(gen_ref.WORK, ignore_errors=True)
+
+
 def replay(ctx, data):
     """re-run the stored case (gtf + genome + tool rows) through the real code"""
     if common.REPO not in sys.path:
@@ -1037,6 +1451,8 @@ def replay(ctx, data):
     if not case.get('gtf') or 'rows' not in case:
         print('replay file carries no gtf/rows')
         return 2
+    if case.get('kind') == 'callvariant':
+        return replay_callvariant(ctx, case)
     from moPepGen.cli import common as cli_common
     from moPepGen import seqvar
     tool = case['tool']
